@@ -15,9 +15,9 @@ UNMAPPED = 3
 
 
 class IcDUT(Module):
-    def __init__(self, kind, nm, ns, register, timeout):
-        self.masters = [wishbone.Interface(data_width=DW, adr_width=AW) for _ in range(nm)]
-        self.slaves = [wishbone.Interface(data_width=DW, adr_width=AW) for _ in range(ns)]
+    def __init__(self, kind, nm, ns, register, timeout, dw=DW):
+        self.masters = [wishbone.Interface(data_width=dw, adr_width=AW) for _ in range(nm)]
+        self.slaves = [wishbone.Interface(data_width=dw, adr_width=AW) for _ in range(ns)]
         regions = [SoCRegion(origin=16*j, size=16) for j in range(ns)]
         dec = [(r.decoder(self.masters[0]), s) for r, s in zip(regions, self.slaves)]
         self.grant = None
@@ -58,8 +58,9 @@ class WbIcHarness(Harness):
          ages[m]    = cycles the request of m has been on the arbitrated bus without termination (time-out runs)"""
 
     def __init__(self, name, kind, nm, ns, register=False, timeout=None, maxlat=2, unmapped=True, err=True, faults=False,
-                 back_to_back=True, decoded=True, cap=None, pauses=False):
+                 back_to_back=True, decoded=True, cap=None, pauses=False, dw=DW):
         self.name, self.kind, self.nm, self.ns = name, kind, nm, ns
+        self.dw, self.ones, self.selall = dw, (1 << dw) - 1, (1 << (dw//8)) - 1      # bus width: idle / time-out data is all-ones over the whole word
         self.register, self.timeout, self.maxlat = register, timeout, maxlat
         self.unmapped, self.err, self.fault_sw, self.b2b = unmapped, err, faults, back_to_back
         self.decoded = kind in ("shared", "crossbar", "decoder")
@@ -76,7 +77,7 @@ class WbIcHarness(Harness):
         self.cov = dict(collisions=0, timeouts=0, expiry_coincidence=0, back_to_back=0, max_wait=0)
 
     def build(self):
-        self.dut = IcDUT(self.kind, self.nm, self.ns, self.register, self.timeout)
+        self.dut = IcDUT(self.kind, self.nm, self.ns, self.register, self.timeout, self.dw)
         return self.dut
 
     def bind(self, D):
@@ -156,21 +157,21 @@ class WbIcHarness(Harness):
                 # wait state inside a bus cycle: cyc stays, stb low, the address still selects the slave of the last transfer
                 tgp = env[0][m][1]
                 v[X["cyc"]], v[X["stb"]] = 1, 0
-                v[X["adr"]], v[X["we"]], v[X["dat_w"]], v[X["sel"]] = (tgp << 4) | (m << 1), 1, 0xFF, 1
+                v[X["adr"]], v[X["we"]], v[X["dat_w"]], v[X["sel"]] = (tgp << 4) | (m << 1), 1, self.ones, self.selall
             elif r is None:
                 v[X["cyc"]] = v[X["stb"]] = 0
                 # idle garbage on the request lines
-                v[X["adr"]], v[X["we"]], v[X["dat_w"]], v[X["sel"]] = (1 << AW) - 1, 1, 0xFF, 1
+                v[X["adr"]], v[X["we"]], v[X["dat_w"]], v[X["sel"]] = (1 << AW) - 1, 1, self.ones, self.selall
             else:
                 t, we, tag = r
                 adr = (t << 4) | (m << 1) | tag
                 v[X["cyc"]] = v[X["stb"]] = 1
-                v[X["adr"]], v[X["we"]], v[X["sel"]] = adr, we, 1
+                v[X["adr"]], v[X["we"]], v[X["sel"]] = adr, we, self.selall
                 v[X["dat_w"]] = 0x80 | adr if we else 0
             v[X["cti"]] = v[X["bte"]] = 0
         for j, X in enumerate(self.S):
             v[X["ack"]] = v[X["err"]] = 0
-            v[X["dat_r"]] = 0xFF
+            v[X["dat_r"]] = self.ones
 
     def react(self, v, env, ch):
         mc, sc, kill = ch
@@ -180,7 +181,7 @@ class WbIcHarness(Harness):
             dead = env[1][j][1] or kill == j
             a = 1 if (vis and not dead and sc[j] == "a") else 0
             e = 1 if (vis and not dead and sc[j] == "e") else 0
-            dr = ((j << 6) | (v[X["adr"]] & 0x3F)) if (a or e) else 0xFF
+            dr = ((j << 6) | (v[X["adr"]] & 0x3F)) if (a or e) else self.ones
             if (v[X["ack"]], v[X["err"]], v[X["dat_r"]]) != (a, e, dr):
                 v[X["ack"]], v[X["err"]], v[X["dat_r"]] = a, e, dr
                 changed = True
@@ -203,7 +204,7 @@ class WbIcHarness(Harness):
                 m = (adr >> 1) & 3
                 r = reqs[m] if m < self.nm else None
                 exp_adr = None if r is None else ((r[0] << 4) | (m << 1) | r[2])
-                if r is None or exp_adr != adr or v[X["we"]] != r[1] or (r[1] and v[X["dat_w"]] != (0x80 | adr)) or v[X["sel"]] != 1:
+                if r is None or exp_adr != adr or v[X["we"]] != r[1] or (r[1] and v[X["dat_w"]] != (0x80 | adr)) or v[X["sel"]] != self.selall:
                     return env, ("route.mutex", f"slave {j} sees a request (adr={adr:#x}, we={v[X['we']]}) that is not the request of exactly one master ({reqs})"), 0
                 if self.decoded and r[0] != j:
                     return env, ("route.wrong_slave", f"request of master {m} for window {r[0]} presented to slave {j}"), 0
@@ -262,7 +263,7 @@ class WbIcHarness(Harness):
                     self.cov["expiry_coincidence"] += 1
                 if not ack:
                     return env, ("timeout.late", f"master {m}: request on the bus for {ages[m]} cycles (time-out {self.timeout}) and not terminated"), 0
-                if not r[1] and v[X["dat_r"]] != 0xFF:
+                if not r[1] and v[X["dat_r"]] != self.ones:
                     return env, ("timeout.data", f"master {m}: timed-out read returns {v[X['dat_r']]:#x}, not all-ones"), 0
                 to_fired += 1
             else:
